@@ -298,9 +298,9 @@ PROPS = {
         trusted=EXEC_TRUST + ["C05_no_panic assumes HostOk (stack address in [2^20, 2^63), packet base + 2^32 < 2^64) and u16-valued stack-usage calculators"],
     ),
     "C07": dict(
-        suites=["exec-calls"], oracle=oracle_no_panic, level="proof", model_is_spec=True,
+        suites=["exec-calls", "api"], oracle=oracle_no_panic, level="proof", model_is_spec=True,
         nontrivial=lambda line, impl: impl.split()[0] in ("ok", "err:oob", "err:call-depth"),
-        rule="suite exec-calls: call chains of depth 0..9, functions placed after (forward displacement) or before (backward) the caller, every function clobbering r6..r9, passing arguments in r1..r5, "
+        rule="suite api (the frame-size table is VM state: histories with set_stack_usage_calculator, failed and successful loads, then a program of nested local calls whose result is the frame size recorded for a function entry) + suite exec-calls: call chains of depth 0..9, functions placed after (forward displacement) or before (backward) the caller, every function clobbering r6..r9, passing arguments in r1..r5, "
              "measuring r10 distance to the caller's frame, storing/reloading a marker in its own frame; bounded recursion to depth 0..9 through a backward self call; stack-usage calculators absent, "
              "constant, per-entry tables incl. values above 512 and not multiples of 8. Results (r0 folds r6..r9, r10 restoration, frame distances, markers) compared with the proved model. "
              "Non-trivial: distinct program that ran to a value or to the expected error.",
